@@ -83,6 +83,7 @@ def run(path, rlimit=30, multiple_errors=10, threads=8, timeout=900, extra=()):
                 "cmd": " ".join(cmd), "raw": ""}
     wall = time.time() - t0
     src = open(path, encoding="utf-8").read()
+    bsrc = src.encode("utf-8")
     lines = src.split("\n")
     ranges = fn_ranges(src)
     res = {"ok": False, "undecided": None, "failures": [], "functions": [], "verified": 0,
@@ -153,8 +154,16 @@ def run(path, rlimit=30, multiple_errors=10, threads=8, timeout=900, extra=()):
         if kind == "precondition":
             base = os.path.basename(path)
             foreign = [sp for sp in spans if not sp.get("file_name", "").endswith(base)]
-            if foreign and not any((sp.get("label") or "").startswith("failed precondition") and sp.get("file_name", "").endswith(base)
-                                   for sp in spans):
+            call_txt = ""
+            for sp in prim:
+                if sp.get("file_name", "").endswith(base):
+                    call_txt = bsrc[sp["byte_start"]:sp["byte_end"]].decode("utf-8", "ignore")
+            # Option/Result::unwrap / expect: the failed vstd precondition IS the panic condition -> a real obligation of the function
+            panicking = bool(re.search(r"\.(unwrap|expect|unwrap_err|expect_err)\s*\((?:[^()]|\([^()]*\))*\)\s*$", call_txt.strip()))
+            if panicking:
+                kind = "unwrap"
+            elif foreign and not any((sp.get("label") or "").startswith("failed precondition") and sp.get("file_name", "").endswith(base)
+                                     for sp in spans):
                 # the failed precondition is one of vstd's own (typically `f.requires(..)` of a closure passed to Option::map
                 # and friends): the closure carries no contract, which is a limit of the dialect, not a defect of the code
                 res["undecided"] = ("closure / std call without a contract: %s (%s)" %
